@@ -512,7 +512,7 @@ func refFlow(name, tail string, dir string) []string {
 }
 
 var refKinds = []string{"one-way", "chain3", "cycle2", "cycle3", "self", "unknown", "no-start-in-target", "flow-end-entry",
-	"one-way-res", "cycle2-res", "bad-at", "diamond"}
+	"one-way-res", "cycle2-res", "bad-at", "diamond", "diamond-res", "chain3-res"}
 
 func refCase(r *prng.R, id, kind string) proto.Case {
 	ops := append([]string{}, vocabLines...)
@@ -568,6 +568,16 @@ func refCase(r *prng.R, id, kind string) proto.Case {
 		ops = append(ops, refFlow("fa", ref("fb"), "res")...)
 		ops = append(ops, refFlow("fb", ref("fa"), "res")...)
 		names = []string{"fa", "fb"}
+	case "diamond-res":
+		ops = append(ops, refFlow("fa", ref("fc"), "res")...)
+		ops = append(ops, refFlow("fb", ref("fc"), "res")...)
+		ops = append(ops, refFlow("fc", sEnd, "res")...)
+		names = []string{"fa", "fb", "fc"}
+	case "chain3-res":
+		ops = append(ops, refFlow("fa", ref("fb"), "res")...)
+		ops = append(ops, refFlow("fb", ref("fc"), "res")...)
+		ops = append(ops, refFlow("fc", sEnd, "res")...)
+		names = []string{"fa", "fb", "fc"}
 	case "bad-at":
 		ops = append(ops, refFlow("fa", "F:fb:end", "req")...)
 		ops = append(ops, refFlow("fb", sEnd, "req")...)
